@@ -1415,23 +1415,34 @@ func iterationConds(in ssa.Instruction, elem ssa.Value) []ssa.Value {
 		return walk(from)
 	}
 	var out []ssa.Value
-	for _, d := range in.Parent().Blocks {
-		if d == header || !header.Dominates(d) {
-			continue
+	done := map[*ssa.BasicBlock]bool{}
+	var collect func(b *ssa.BasicBlock, depth int)
+	collect = func(b *ssa.BasicBlock, depth int) {
+		if done[b] || depth > 4 {
+			return
 		}
-		v, _, ok := ifCond(d)
-		if !ok {
-			continue
-		}
-		reachable := 0
-		for _, s := range d.Succs {
-			if s != header && (s == b || reachesAvoiding(s, b, d, header)) {
-				reachable++
+		done[b] = true
+		for _, d := range in.Parent().Blocks {
+			if d == header || !header.Dominates(d) || d == b {
+				continue
+			}
+			v, _, ok := ifCond(d)
+			if !ok {
+				continue
+			}
+			reachable := 0
+			for _, s := range d.Succs {
+				if s != header && (s == b || reachesAvoiding(s, b, d, header)) {
+					reachable++
+				}
+			}
+			if reachable >= 1 && reachable < len(d.Succs) {
+				out = append(out, v)
+				// … and what decides whether that test is reached at all in this pass
+				collect(d, depth+1)
 			}
 		}
-		if reachable >= 1 && reachable < len(d.Succs) {
-			out = append(out, v)
-		}
 	}
+	collect(b, 0)
 	return out
 }
